@@ -71,7 +71,7 @@ let step _ cs os =
             c_writes = nlist (get f "w"); c_fail = optn (get f "f"); c_zstd = (get f "z" = "1");
             c_kind = n_of_hex (get f "kind"); c_puller = n_of_hex (get f "pull");
             c_cancel_after = n_of_hex (get f "cj");
-            c_panic = (match get_opt f "fk" with Some "panic" -> true | Some "err" | Some "eof" | None -> false
+            c_panic = (match get_opt f "fk" with Some "panic" -> true | Some "err" | Some "eof" | Some "pipe" | Some "reset" | Some "inval" | None -> false
                                                 | Some x -> failwith ("bad failure kind " ^ x)) } in
   let out = ref [] in
   (match get_opt o "crash" with
@@ -83,6 +83,11 @@ let step _ cs os =
      end
    | None ->
      (try
+       (* ae2: a `next` for the finished stream's id while a second stream is open: an error (no id reuse) *)
+       (match get_opt o "ae2" with
+        | Some r when String.length r > 0 && r.[0] = 'c' ->
+          out := "BAD\tside=impl\tclause=pulling a finished stream's id returned a chunk (of another stream)" :: !out
+        | _ -> ());
        let pulls = parse_resps (get o "pulls") in
        let plain = let s = get o "plain" in if s = "na" then [] else bytes_of_hex s in
        let impl = { Svs.o_pulls = pulls; o_after_end = parse_resp (get o "ae");
